@@ -233,9 +233,9 @@ Reopen ==
   /\ tr' = [ins |-> {}, del |-> {}]
   /\ UNCHANGED <<kv, ckv, db, steps>>
 
-Next == \/ \E k \in Keys, v \in 0..MaxV : Update(k, v)
-        \/ \E k \in Keys : Get(k)
-        \/ HashOp \/ Commit \/ Reopen
+UpdateAny == \E k \in Keys, v \in 0..MaxV : Update(k, v)
+GetAny == \E k \in Keys : Get(k)
+Next == UpdateAny \/ GetAny \/ HashOp \/ Commit \/ Reopen
 Spec == Init /\ [][Next]_vars
 
 ----------------------------------------------------------------------------
